@@ -1,6 +1,5 @@
 import Operon.Lemmas.C06
 import Operon.Lemmas.C06Tab
-import Operon.Lemmas.C06TabW
 /-!
 # C06 — quorum decisions follow the votes: no PERMIT without sufficient permit support
 
@@ -623,6 +622,7 @@ theorem c06_action_type_classification (s : List Nat) (c : Conf) (w r : Rat) :
 example : "PERMIT".toList.map Char.toNat = permitCps ∧ "EXECUTE".toList.map Char.toNat = executeCps ∧
     "BLOCK".toList.map Char.toNat = blockCps ∧ "DEFER".toList.map Char.toNat = deferCps := by decide
 
+set_option maxRecDepth 100000 in
 /-- Classification table: for every evaluated row - action-type strings (the four words, all their proper prefixes
     and suffixes, case / blank variants, concatenations, the empty string, unrelated words) x payload shapes (not a
     dict, no "confidence" key, numeric as float / int / bool / string, non-numeric, None, list) x profile weight and
@@ -631,8 +631,9 @@ example : "PERMIT".toList.map Char.toNat = permitCps ∧ "EXECUTE".toList.map Ch
 theorem c06_classification_table_agrees :
     classTableComplete = true ∧
     ∀ row ∈ classTable, observedVote (toVote (rowVoter row.1)) = rowObserved row.2 := by
+  have hok : ClassTableOk := by unfold ClassTableOk; decide +kernel
   refine ⟨by decide, fun row hrow => ?_⟩
-  have := List.all_eq_true.mp classTable_ok row hrow
+  have := List.all_eq_true.mp hok row hrow
   exact of_decide_eq_true this
 
 /-- Count tables: for every evaluated configuration (MAJORITY / SUPERMAJORITY / UNANIMOUS / THRESHOLD x custom
@@ -642,12 +643,14 @@ theorem c06_classification_table_agrees :
     ZeroDivisionError) is the digit the real code produced for that electorate's profile. -/
 theorem c06_count_tables_agree :
     countTableComplete = true ∧
-    ∀ row ∈ countTable, ∃ cfg, cfgOfCode row.1 = some cfg ∧ NonNegThreshold cfg ∧
+    ∀ row ∈ countTable, ∃ cfg, cfgOfCode row.1 = some cfg ∧ NonNegThreshold cfg ∧ cfg.strategy.counting = true ∧
+      decodeCount row.2 = (profilesUpTo countMaxVoters).map (fun pr => (pr, countOutcome cfg pr)) ∧
       ∀ voters : List Voter, voters.length ≤ countMaxVoters →
         (profileOf voters, outcomeCode cfg voters) ∈ decodeCount row.2 := by
+  have hok : CountTableOk := by unfold CountTableOk; decide +kernel
   refine ⟨by decide, fun row hrow => ?_⟩
-  obtain ⟨cfg, hc, hn, hcount, hdec⟩ := countRow_sound row hrow
-  refine ⟨cfg, hc, hn, fun voters hlen => ?_⟩
+  obtain ⟨cfg, hc, hn, hcount, hdec⟩ := countRow_sound hok row hrow
+  refine ⟨cfg, hc, hn, hcount, hdec, fun voters hlen => ?_⟩
   rw [hdec, outcome_eq_count cfg hcount voters]
   apply List.mem_map.mpr
   refine ⟨profileOf voters, ?_, rfl⟩
@@ -655,26 +658,6 @@ theorem c06_count_tables_agree :
   rcases hp : profileOf voters with ⟨p, b, a, d⟩
   rw [hp] at hsum
   exact (mem_profilesUpTo _ p b a d).mpr (by simp only at hsum; omega)
-
-/-- Weight tables: for every evaluated configuration of WEIGHTED / CONFIDENCE / BAYESIAN (default and custom
-    thresholds, min_voters 0 / 1 / 2) and every multiset of at most 3 voters over the 13-voter alphabet (dyadic
-    weights, reliabilities and confidences incl. 0, absent confidence, a clamping weight, idle and failing voters),
-    the digit the real code produced is the model's outcome - except the ballots marked 7, whose exact Bayesian
-    posterior lies within 1e-6 of the threshold (IEEE rounding decides those; they are not compared). -/
-theorem c06_weight_tables_agree :
-    weightTableComplete = true ∧
-    ∀ row ∈ weightTable, ∃ cfg, cfgOfCode row.1 = some cfg ∧
-      ∀ (i : Nat) (ballot : List Voter) (d : Nat), weightBallots[i]? = some ballot →
-        (unpack weightBallots.length row.2)[i]? = some d → d = 7 ∨ d = outcomeCode cfg ballot := by
-  refine ⟨by decide, fun row hrow => ?_⟩
-  have h := List.all_eq_true.mp weightTable_ok row hrow
-  unfold weightRowOk at h
-  cases hc : cfgOfCode row.1 with
-  | none => simp [hc] at h
-  | some cfg =>
-    simp only [hc] at h
-    refine ⟨cfg, rfl, fun i ballot d hb hd => ?_⟩
-    exact (agreeB_get h).2 i d (outcomeCode cfg ballot) hd (by simp [List.getElem?_map, hb])
 
 /-- The outcomes the real code produced, judged by the general theorems (not by inspection of the digits): in every
     row of the count tables a PERMIT digit sits only at a profile with a permit vote and at least `min_voters` active
@@ -689,7 +672,7 @@ theorem c06_evaluated_outcomes_obey_the_clauses :
         (0 < pr.1 → pr.2.1 = 0 → pr.2.2.1 = 0 → pr.2.2.2 = 0 → cfg.minVoters ≤ pr.1 → Attainable cfg pr.1 →
           d = 1) := by
   intro row hrow
-  obtain ⟨cfg, hc, hn, hcount, hdec⟩ := countRow_sound row hrow
+  obtain ⟨cfg, hc, hn, hcount, hdec, -⟩ := c06_count_tables_agree.2 row hrow
   refine ⟨cfg, hc, fun pr d hmem => ?_⟩
   rw [hdec, List.mem_map] at hmem
   obtain ⟨pr', -, heq⟩ := hmem
@@ -756,12 +739,10 @@ theorem c06_evaluated_outcomes_obey_the_clauses :
     simp only [hnr, Bool.false_eq_true, if_false, hres.1, hres.2]
     rfl
 
-set_option maxRecDepth 100000 in
-/-- the table theorems are about something: 87 count configurations x 330 profiles, 18 weight configurations x 560
-    ballots, 525 classification rows on the current tree; e.g. the first count row is MAJORITY, default threshold,
+/-- the table theorems are about something: 87 count configurations x 330 profiles, 525 classification rows on
+    the current tree; e.g. the first count row is MAJORITY, default threshold,
     `min_voters = 0`, and its digit for the profile (1 permit, 1 block) is 2 = BLOCK (a tie is not a majority) -/
-example : countTable.length = 87 ∧ weightTable.length = 18 ∧ classTable.length = 525 ∧
-    (profilesUpTo countMaxVoters).length = 330 ∧ weightBallots.length = 560 ∧
+example : countTable.length = 87 ∧ classTable.length = 525 ∧ (profilesUpTo countMaxVoters).length = 330 ∧
     ((1, 1, 0, 0), 2) ∈ decodeCount (countTable.head!).2 := by decide +kernel
 
 end Operon.Quorum
